@@ -96,8 +96,12 @@ def seed_target(engine, ws, scratch):
     only, never consulted for verdicts: the crates under test are recompiled from the workspace by cargo)."""
     seed = os.path.join(CACHE, f"seed-{engine}")
     stamp = os.path.join(seed, ".stamp")
-    want = hashlib.sha256(open(os.path.join(ws, "Cargo.toml")).read().encode()
-                          + open(os.path.join(ws, "Cargo.lock")).read().encode()).hexdigest()
+    h = hashlib.sha256(open(os.path.join(ws, "Cargo.toml")).read().encode()
+                       + open(os.path.join(ws, "Cargo.lock")).read().encode())
+    for root, _, files in sorted(os.walk(os.path.join(VERIF, "env"))):
+        for fn in sorted(files):
+            h.update(open(os.path.join(root, fn), "rb").read())
+    want = h.hexdigest()
     if os.path.exists(stamp) and open(stamp).read() == want:
         return seed
     if os.path.exists(seed):
